@@ -111,6 +111,12 @@ Definition valid_tree (t : tree) : bool := forallb node_ok (pre t).
 Definition sep_safe (sep : str) (t : tree) : bool :=
   nonempty sep && forallb (fun n => negb (contains (tname n) sep)) (pre t).
 
+(* no CHARACTER of the separator occurs in a name: the guard under which path strings are read back
+   (lstrip / rstrip strip a character set) for separators of any positive length; for a one-character
+   separator it coincides with sep_safe *)
+Definition sep_free (sep : str) (t : tree) : bool :=
+  nonempty sep && forallb (fun n => forallb (fun ch => negb (memN ch (tname n))) sep) (pre t).
+
 (* the exported attributes: public ones, in key order; frames cannot hold nulls *)
 Definition norm_attrs (drop_null : bool) (a : attrs) : attrs :=
   filter (fun kv => public_key (fst kv) && (negb drop_null || negb (is_null (snd kv))))
